@@ -105,7 +105,8 @@ func runC15(src sim.Source, o Opts) *Result {
 		return res
 	}
 	// routes
-	pool := world.GenPool(src, world.PoolCfg{Size: 2 + src.Intn("poolsize", 4), MaxSegs: 1 + src.Intn("maxsegs", 3), WildHeavy: true})
+	withHosts := src.Intn("hosts", 3) == 2
+	pool := world.GenPool(src, world.PoolCfg{Size: 2 + src.Intn("poolsize", 4), MaxSegs: 1 + src.Intn("maxsegs", 3), WildHeavy: true, Hosts: withHosts})
 	set := model.NewSet()
 	tag := 0
 	for i := range pool {
@@ -124,12 +125,17 @@ func runC15(src sim.Source, o Opts) *Result {
 	prefixes := []string{"", "/"}
 	// the request: matches one registered route
 	target := set.Routes()[src.Intn("target", set.Len())]
-	_, path := world.Instantiate(src, target.Pat)
-	wantMatch := set.Match("GET", "", path, model.MatchOpts{})
+	host, path := world.Instantiate(src, target.Pat)
+	reqHost := "sim.invalid" // the Host of every request of this run: the target's hostname when it has one
+	if host != "" {
+		reqHost = host
+		res.inc("target_route_has_a_hostname")
+	}
+	wantMatch := set.Match("GET", reqHost, path, model.MatchOpts{})
 	if wantMatch.Route == nil || wantMatch.TSR {
 		return res
 	}
-	if fmtMatch(wantMatch) != fmtMatch(set.Match("GET", "", path, model.MatchOpts{AllowLeadingSlashCapture: true})) {
+	if fmtMatch(wantMatch) != fmtMatch(set.Match("GET", reqHost, path, model.MatchOpts{AllowLeadingSlashCapture: true})) {
 		return res // documented ambiguity (capture starting with '/'): not this property's business
 	}
 	// headers: secrets under drawn capitalisations + ordinary ones
@@ -169,13 +175,16 @@ func runC15(src sim.Source, o Opts) *Result {
 	// the request-target form: origin-form, absolute-form (proxy style) or a request without any host - the dump of
 	// the request starts differently in each case (httputil.DumpRequest omits the Host line for the last two)
 	reqForm := sim.Pick(src, "reqform", []string{"origin", "origin", "absolute", "nohost"})
+	if withHosts && reqForm == "nohost" {
+		reqForm = "origin" // with hostname routes around, the reference is asked with the Host every request carries
+	}
 	res.inc("request_form_" + reqForm)
 	ctxDone := src.Intn("ctxdone", 4) == 3
 	if ctxDone {
 		res.inc("request_context_already_done")
 	}
 	mkReq := func(method, p string, log *world.ReqLog) *http.Request {
-		req := world.NewRequest(method, "sim.invalid", p, "", "q=1", log)
+		req := world.NewRequest(method, reqHost, p, "", "q=1", log)
 		if ctxDone {
 			// the request's context is already done (a timeout middleware whose deferred cancel ran while the panic
 			// unwound, or a caller that gave up): the client still gets its answer
@@ -185,7 +194,7 @@ func runC15(src sim.Source, o Opts) *Result {
 		}
 		switch reqForm {
 		case "absolute":
-			req.RequestURI = "http://sim.invalid" + p + "?q=1"
+			req.RequestURI = "http://" + reqHost + p + "?q=1"
 		case "nohost":
 			req.Host = ""
 		}
@@ -236,8 +245,8 @@ func runC15(src sim.Source, o Opts) *Result {
 		mcfg := w.ModelCfg()
 		var ok []site
 		for _, st := range sites {
-			sv := set.Serve(mcfg, st.Method, "sim.invalid", st.Path, st.Path, model.MatchOpts{})
-			amb := set.Serve(mcfg, st.Method, "sim.invalid", st.Path, st.Path, model.MatchOpts{AllowLeadingSlashCapture: true})
+			sv := set.Serve(mcfg, st.Method, reqHost, st.Path, st.Path, model.MatchOpts{})
+			amb := set.Serve(mcfg, st.Method, reqHost, st.Path, st.Path, model.MatchOpts{AllowLeadingSlashCapture: true})
 			if sv.Kind == st.Kind && amb.Kind == st.Kind && fmtMatch(sv.Match) == fmtMatch(amb.Match) {
 				st.Sv = sv
 				ok = append(ok, st)
@@ -408,7 +417,7 @@ func runC15(src sim.Source, o Opts) *Result {
 					}
 					reqLine := fmt.Sprintf("%s %s?q=1 HTTP/1.1", st.Method, st.Path)
 					if reqForm == "absolute" {
-						reqLine = fmt.Sprintf("%s http://sim.invalid%s?q=1 HTTP/1.1", st.Method, st.Path)
+						reqLine = fmt.Sprintf("%s http://%s%s?q=1 HTTP/1.1", st.Method, reqHost, st.Path)
 					}
 					if !strings.Contains(rec.Msg, reqLine) {
 						res.fail("C15/log-record", "%s: the record does not name the request line %q", where, reqLine)
@@ -509,7 +518,7 @@ func runC15(src sim.Source, o Opts) *Result {
 					res.fail("C15/log-record", "%s: %d diagnostic records on standard error, expected 1: %q", where, strings.Count(text, "Recovered from PANIC"), text)
 				case !strings.Contains(text, "route="+pat):
 					res.fail("C15/log-record", "%s: the record does not name the route: %q", where, text)
-				case !strings.Contains(text, fmt.Sprintf("GET %s?q=1 HTTP/1.1", bpath)) && reqForm != "absolute", reqForm == "absolute" && !strings.Contains(text, fmt.Sprintf("GET http://sim.invalid%s?q=1 HTTP/1.1", bpath)):
+				case !strings.Contains(text, fmt.Sprintf("GET %s?q=1 HTTP/1.1", bpath)) && reqForm != "absolute", reqForm == "absolute" && !strings.Contains(text, fmt.Sprintf("GET http://%s%s?q=1 HTTP/1.1", reqHost, bpath)):
 					res.fail("C15/log-record", "%s: the record does not name the request line: %q", where, text)
 				default:
 					for _, wp := range wantParams {
